@@ -23,7 +23,7 @@ type CrashOutcome struct {
 // directory in the middle of the block, before Commit and after every durable write of Commit
 // (verif hook); every snapshot is then recovered the way Tendermint's handshake does it.
 func CrashExperiment(h *History, at int, scratch, label string) ([]CrashOutcome, error) {
-	if at < 1 || at >= len(h.Blocks) || at >= len(h.Obs) {
+	if at < 0 || at >= len(h.Blocks) || at >= len(h.Obs) {
 		return nil, fmt.Errorf("block %d out of range", at)
 	}
 	dir := freshDir(scratch, label)
@@ -84,10 +84,61 @@ func CrashExperiment(h *History, at int, scratch, label string) ([]CrashOutcome,
 		return nil, fmt.Errorf("block %d: app hash differs from the recorded run", at+1)
 	}
 	var out []CrashOutcome
+	// a second crash while the interrupted block is being replayed (before the snapshots are used up below)
+	for _, s := range snaps {
+		if s.point == "after:accounts" {
+			d2 := filepath.Join(scratch, label+"-again")
+			d3 := filepath.Join(scratch, label+"-again-snap")
+			dirs = append(dirs, d2, d3)
+			if err := copyDir(s.dir, d2); err == nil && crashAgain(h, at, d2, d3, "frozen") {
+				out = append(out, recoverFrom(h, at, "double:after:accounts+after:frozen", d3))
+			}
+		}
+	}
 	for _, s := range snaps {
 		out = append(out, recoverFrom(h, at, s.point, s.dir))
 	}
 	return out, nil
+}
+
+// crashAgain starts a node on dir (a snapshot of an interrupted commit of block at+1), replays that
+// block and copies the data directory to snapDir right after the durable write `store` of the
+// replayed commit: the process dies a second time, in the middle of the recovery.
+func crashAgain(h *History, at int, dir, snapDir, store string) bool {
+	n, info, err := OpenNode(dir)
+	if err != nil {
+		return false
+	}
+	defer n.Close()
+	if info.LastBlockHeight != int64(at) {
+		return false
+	}
+	taken := false
+	ok := guard(func() {
+		if at == 0 {
+			if e := n.InitChain(h.Genesis); e != nil {
+				panic(e)
+			}
+		}
+		b := h.Blocks[at]
+		if _, _, p := n.Begin(b); p != "" {
+			panic(p)
+		}
+		for _, t := range b.Txs {
+			n.Deliver(t.Spec.Type, t.Bytes)
+		}
+		if _, _, p := n.End(b.Height); p != "" {
+			panic(p)
+		}
+		verifhook.SetCallbacks(nil, func(st string) {
+			if st == store && !taken {
+				taken = copyDir(n.Dir, snapDir) == nil
+			}
+		})
+		defer verifhook.SetCallbacks(nil, nil)
+		n.App.Commit()
+	})
+	return ok == nil && taken
 }
 
 func recoverFrom(h *History, at int, point, dir string) CrashOutcome {
@@ -101,6 +152,17 @@ func recoverFrom(h *History, at int, point, dir string) CrashOutcome {
 	next := at // index of the first block to (re)play
 	switch info.LastBlockHeight {
 	case int64(at): // the interrupted block is not reported: consensus replays it
+		if at == 0 {
+			// height 0: the handshake starts with InitChain, as on a node that has never run
+			if err := guard(func() {
+				if e := n.InitChain(h.Genesis); e != nil {
+					panic(e)
+				}
+			}); err != nil {
+				res.Outcome, res.Detail = "panic@InitChain", firstWords(err.Error())
+				return res
+			}
+		}
 	case int64(at + 1):
 		if !bytes.Equal(info.LastBlockAppHash, h.Obs[at].AppHash) {
 			res.Outcome, res.Detail = "hash-mismatch@Info", fmt.Sprintf("Info reports %X, the block committed %X", info.LastBlockAppHash, h.Obs[at].AppHash)
